@@ -56,7 +56,7 @@ EDITS=[
  ("C06","skipspace-ignores-eof","syntax/lexer.go",("\t\tcase runeEOF:\n\t\t\tp.tok = _EOF\n\t\t\treturn\n\t\tcase escNewl:\n\t\t\tr = p.rune()\n\t\tcase ' ', '\\t', '\\r':","\t\tcase escNewl:\n\t\t\tr = p.rune()\n\t\tcase ' ', '\\t', '\\r', runeEOF:"),"syntax#eof-exit@Parser.next"),
  ("C04","forget-modified","syntax/simplify.go",("\t\tcase TsEmpStr:\n\t\t\ty.Op = TsNempStr\n\t\t\ts.modified = true\n","\t\tcase TsEmpStr:\n\t\t\ty.Op = TsNempStr\n"),"syntax.simplifier.removeNegateTest#ensures@changed-sets-modified"),
  ("C23","combine-keeps-one-more","expand/expand.go",("\t\tfpos[n-1].end = fpos[len(fpos)-1].end\n\t\tfpos = fpos[:n]","\t\tfpos[n-1].end = fpos[len(fpos)-1].end\n\t\tfpos = fpos[:n+1]"),"expand.ReadFields#"),
- ("C23","field-end-past-line","expand/expand.go",("\t\t\t\tfpos[len(fpos)-1].end = len(runes)\n\t\t\t\tinfield = false","\t\t\t\tfpos[len(fpos)-1].end = len(runes) + 1\n\t\t\t\tinfield = false"),"expand.ReadFields#inv-pres@loop1.fields-in-line"),
+ ("C23","field-end-past-line","expand/expand.go",("\t\t\t\tfpos[len(fpos)-1].end = len(runes)\n\t\t\t\tinfield = false","\t\t\t\tfpos[len(fpos)-1].end = len(runes) + 1\n\t\t\t\tinfield = false"),"expand.ReadFields#inv-pres@loop1.field-ranges"),
  ("C23","no-empty-check","expand/expand.go",("\tif len(fpos) == 0 {\n\t\treturn nil\n\t}\n\tif infield {","\tif infield {"),"expand.ReadFields#index@fpos[0]"),
  ("C23","combine-at-n","expand/expand.go",("\tcase n != -1 && n < len(fpos):","\tcase n < len(fpos):"),"expand.ReadFields#"),
  ("C23","readline-drops-unchecked","interp/builtin.go",("\t\t\tcase !raw && b == '\\n' && esc:","\t\t\tcase !raw && b == '\\n':"),"interp.Runner.readLine#slice@"),
